@@ -15,7 +15,7 @@ for p in "${patches[@]}"; do
   git -C /repo apply "$VERIF/$p" 2>/dev/null || git -C /repo apply "$p" || { echo "$name: patch does not apply"; fail=1; continue; }
   tests="$(cd /repo && cargo nextest run --workspace --no-fail-fast --offline 2>&1 | grep -E "^\s+Summary" | sed 's/^ *//')"
   t0=$(date +%s)
-  out="$(./check C08 --tier quick --no-evidence --run-timeout 25 2>&1)"; rc=$?
+  out="$(./check C08 --tier quick --no-evidence --run-timeout 25 --first-only 2>&1)"; rc=$?
   t1=$(date +%s)
   git -C /repo checkout -q -- . ; git -C /repo clean -fdq visitor plugin
   first="$(echo "$out" | grep -m1 -E "^--- " | cut -c1-150)"
